@@ -67,6 +67,8 @@ OUTER:
 
 		atomic.AddUint64(&m.stats.TotPersisterLowerLevelUpdateBeg, 1)
 
+		verifGate("persister:begin", m)
+
 		llssNext, err := m.options.LowerLevelUpdate(stackDirtyBase)
 		if err != nil {
 			atomic.AddUint64(&m.stats.TotPersisterLowerLevelUpdateErr, 1)
@@ -82,6 +84,8 @@ OUTER:
 
 		var stackDirtyBasePrev *segmentStack
 		var stackCleanPrev *segmentStack
+
+		verifGate("persister:publish", m)
 
 		m.m.Lock()
 
